@@ -20,6 +20,7 @@ import (
 	"fmt"
 	"math/rand"
 	"strings"
+	"sync/atomic"
 	"time"
 
 	wrapping "github.com/hashicorp/go-kms-wrapping/v2"
@@ -160,6 +161,11 @@ type cryptUniverse struct {
 	sp   [5]*world.X25519Pair
 }
 
+// server records are built with varying record IDs (across all universes of
+// the run): a NodeInformation's key ID is the one derived from its certificate
+// key, whatever the record is labelled
+var cryptLabelSeq atomic.Int64
+
 type cryptGen struct{ c, n, s int }
 
 var cryptGens = map[string]cryptGen{
@@ -204,8 +210,17 @@ func (u *cryptUniverse) nodeRec(gen string) *types.NodeCredentials {
 
 func (u *cryptUniverse) serverRec(gen string) *types.NodeInformation {
 	g := cryptGens[gen]
+	id := u.cert[g.c].KeyID
+	switch cryptLabelSeq.Add(1) % 5 {
+	case 1:
+		id = ""
+	case 2:
+		id = "record-label-chosen-by-the-application"
+	case 3:
+		id = u.cert[(g.c+1)%len(u.cert)].KeyID // the key ID of another certificate key
+	}
 	return &types.NodeInformation{
-		Id:                              u.cert[g.c].KeyID,
+		Id:                              id,
 		CertificatePublicKeyPkix:        u.cert[g.c].Pkix,
 		CertificatePublicKeyType:        types.KEYTYPE_ED25519,
 		EncryptionPublicKeyBytes:        u.np[g.n].Pub,
